@@ -507,6 +507,8 @@ def run_case(case, rec=None):
             raise core.HarnessError("out-of-domain text generated: %r" % (text,))
         lvl, ctx = apply_op(owner, tf, host, model, op, rec)
         body = observe(owner, tf, model, "live", lvl, ctx)
+        # re-base the model on the verified actual item structure (run count per segment is not pinned)
+        model[:] = [[list(it) for it in b["items"]] for b in body]
         ncyc = 0
         for _ in range(op[4]):
             if total_cycles >= 3:
